@@ -1,6 +1,7 @@
 package rules
 
 import (
+	"sort"
 	"fmt"
 	"go/token"
 	"go/types"
@@ -28,6 +29,7 @@ func c15(c *eng.Ctx, r *eng.Report) {
 		"R15.10 a panic raised while handling one message ends that message, not the party: the deferred recover() of baseParty.Update neither sends on the party's Err channel nor calls anything that does (ID.Serialize panics on an over-long signer id, which the wire decoder lets through); " +
 		"R15.12 the key a share is verified under is the sender's key in this block's group: every key GetMemberSignPubKey(group, member) returns comes from GetMemberSignPK(member) on the record GetJoinedGroupInfo(group) returned — not from a store keyed by the member alone (a miner sits in several groups with a different share key in each); " +
 		"R15.14 the share sets are fed by the checked path only: outside the generator's own methods the only function that calls AddWitnessSign/addWitnessForce is (*round1).Update, whose two call sites R15.1 decides — a second feeder (a batch path over parked messages that verifies the recovered result instead of each piece) lets one bad piece into the set, and what it leaves behind blocks the honest shares; " +
+		"R15.16 the bytes a share is verified over are the data hash and nothing else of the message: in SignInfo.VerifySign the message handed to groupsig.VerifySig is computed from the field dataHash alone — round 1 compares dataHash with the block's hash, so if another sender-filled field (a version number) selects what was signed, a share over other bytes passes as a share over this block's hash and poisons the recovery set; " +
 		"R15.15 a party parks every early message: baseParty.StoreMessage reaches its futureMessages update on every path (no return precedes it) — a quota counted before any signature is checked is filled by one faulty member's forged messages and the honest shares that arrive afterwards are dropped; " +
 		"R15.13 a verify message is identified by the digest of its whole wire form: the Id that UnMarshalConsensusVerifyMessage assigns — the key of CanAccept, futureMessages and processed — is computed by a hash over the received bytes, not from fields the sender fills in (a forged piece naming another member would otherwise occupy that member's id and the genuine share be dropped as a duplicate); " +
 		"R15.11 the share sets recover as soon as the threshold is reached: the comparison of the number of collected shares with the threshold in both generators is `count >= threshold` (not `>`): with exactly threshold valid shares the block must finalise; " +
@@ -49,6 +51,7 @@ func c15(c *eng.Ctx, r *eng.Report) {
 	c15MessageIdIsDigest(c, r)
 	c15OnlyCheckedPathFeedsShares(c, r)
 	c15PartyParksEverything(c, r)
+	c15VerifiedBytesAreTheHash(c, r)
 }
 
 // c15Parking: a verify message that arrives before its party exists is parked
@@ -803,4 +806,54 @@ func c15PartyParksEverything(c *eng.Ctx, r *eng.Report) {
 		}
 	}
 	r.Check(bad == "", rule, "StoreMessage:parks-always", c.Pos(upd.Pos()), "every return of StoreMessage follows the futureMessages update", "baseParty.StoreMessage can return (at "+bad+") without parking the message: whatever decides that is evaluated before any signature was checked, so one faulty member sending enough distinct forged verify messages during the round-0 wait uses it up, the honest shares that arrive afterwards are discarded and the block is never finalised")
+}
+
+// c15VerifiedBytesAreTheHash: see R15.16.
+func c15VerifiedBytesAreTheHash(c *eng.Ctx, r *eng.Report) {
+	const rule = "R15.16"
+	r.Min(rule, 1)
+	fn := c.Func("consensus/model", "(SignInfo).VerifySign")
+	if fn == nil {
+		fn = c.Func("consensus/model", "SignInfo.VerifySign")
+	}
+	if !r.Anchor(fn != nil, rule, "model.SignInfo.VerifySign") {
+		return
+	}
+	n := 0
+	for _, s := range eng.Sites(fn) {
+		if s.Name() != "consensus/groupsig.VerifySig" {
+			continue
+		}
+		n++
+		fields := map[string]bool{}
+		seen := map[ssa.Value]bool{}
+		var walk func(v ssa.Value, d int)
+		walk = func(v ssa.Value, d int) {
+			if v == nil || seen[v] || d > 10 {
+				return
+			}
+			seen[v] = true
+			if t, f := eng.FieldOf(v); f != "" && strings.HasSuffix(t, "SignInfo") {
+				fields[f] = true
+			}
+			if in, ok := v.(ssa.Instruction); ok {
+				var ops []*ssa.Value
+				for _, o := range in.Operands(ops) {
+					walk(*o, d+1)
+				}
+			}
+		}
+		walk(s.Common().Args[1], 0)
+		var extra []string
+		for f := range fields {
+			if f != "dataHash" {
+				extra = append(extra, f)
+			}
+		}
+		sort.Strings(extra)
+		r.Check(fields["dataHash"] && len(extra) == 0, rule, "VerifySign:bytes-are-the-hash", c.Pos(s.Pos()), "the verified message is computed from dataHash alone", "SignInfo.VerifySign verifies the signature over bytes that also depend on the sender-filled field(s) "+strings.Join(extra, ", ")+": round 1 only compares dataHash with the block's hash, so a Byzantine member sets the field so that its signature — made over other bytes — verifies, the share is counted as a share over this block, the recovered group signature is garbage and the valid block never finalises")
+	}
+	if n == 0 {
+		r.Fail(rule, "VerifySign:bytes-are-the-hash", c.Pos(fn.Pos()), "SignInfo.VerifySign no longer calls groupsig.VerifySig: the rule has lost its anchor")
+	}
 }
